@@ -220,6 +220,8 @@ class DeepSearch(dict):
             parents_ids_added = add_to_frozen_set(parents_ids, item_id)
 
             new_parent = parent_text % (parent, item_key_str)
+            if self.__skip_this(obj_child, parent=new_parent):
+                continue
             new_parent_cased = new_parent if self.case_sensitive else new_parent.lower()
 
             str_item = str(item)
@@ -303,7 +305,7 @@ class DeepSearch(dict):
 
     def __search(self, obj, item, parent="root", parents_ids=frozenset()):
         """The main search method"""
-        if self.__skip_this(item, parent):
+        if self.__skip_this(obj, parent):
             return
 
         elif isinstance(obj, strings) and isinstance(item, (strings, RE_COMPILED_TYPE)):
